@@ -21,12 +21,13 @@ FAULT_TEXT = {
                    "rgba(1,2,3,1e999)", "hsl(1e999,50%,50%)", "rgb(nan,0,0)", "#"],
     "style_garbage": ["fill:;:;;stroke", ";;;", "fill:rgb(1,2;stroke-width:abc", "stroke-width:1em;transform:rotate(", "fill:red:blue", ":::",
                       "fill:url(http://example.org/p#q)", "a:b:c;stroke", "fill"],
-    "length_garbage": ["abc", "12qq", "1e", "--5", "5 5", "calc(1+2)", ""],
+    "length_garbage": ["abc", "12qq", "1e", "--5", "5 5", "calc(1+2)", "", "5em", "1e999", "inf", "nan", "3ex", "1e-999"],
+    "opacity_bad": ["1e999", "inf", "abc", "-1e999", "nan", "50%%", ""],
     "length_negative": ["-5", "-1e3", "-0.001"],
     "d_truncated": ["M 10 10 L 20", "M 10 10 C 1 2 3 4 5", "M 10", "M 1 1 h", "M 1 1 Q 2 2"],
     "d_arc_short": ["M1,1 A 5", "M1,1 A 5 5 0 2 1 9 9", "M1,1 a 5 5 0 0", "M 1 1 A 1 z"],
     "d_no_move": ["L 5 5 z", "h 3", "a 5 3 30 0 1 4 -3", "T 3 1 T 3 1", "z"],
-    "d_garbage": ["M 1 1 & ? L", "hello", "M 1 1 L 2 2 é 3 3", "M1,1 L NaN,inf", "M 1 1 L 1e999 5"],
+    "d_garbage": ["M1,1 a 1e-200 5 0 0 1 4,4", "M0,0 A 1e200 1e200 0 0 1 5 5", "M0,0 L1e999,5", "M 1 1 & ? L", "hello", "M 1 1 L 2 2 é 3 3", "M1,1 L NaN,inf", "M 1 1 L 1e999 5"],
     "points_odd": ["1,2 3", "1 2 3 4 5", "7"],
     "points_garbage": ["a,b c", "1,2,x,4", ",,,", "1e,2"],
     "viewbox_garbage": ["0 0 x y", "a b c d", "0,0,100", "none"],
@@ -40,7 +41,7 @@ LENGTH_ATTR = {"rect": "width", "circle": "r", "ellipse": "rx", "line": "x2", "s
 
 def faults_of(tag):
     """DocFault!FaultsOf"""
-    f = ["tf_unclosed", "tf_unknown", "tf_few_numbers", "tf_bad_unit", "colour_bad", "style_garbage"]
+    f = ["tf_unclosed", "tf_unknown", "tf_few_numbers", "tf_bad_unit", "colour_bad", "style_garbage", "opacity_bad"]
     if tag in ("rect", "circle", "ellipse", "line"):
         f += ["length_garbage", "length_negative"]
     if tag == "path":
@@ -91,6 +92,10 @@ def faulty_attrs(doc, faults, k):
             o["transform"] = FAULT_TEXT[kind][(k + j) % len(FAULT_TEXT[kind])]
         elif kind == "colour_bad":
             o[["fill", "stroke"][(k + j) % 2]] = FAULT_TEXT[kind][(k + j) % len(FAULT_TEXT[kind])]
+        elif kind == "opacity_bad":
+            o[["fill-opacity", "stroke-opacity"][(k + j) % 2]] = FAULT_TEXT[kind][(k + j) % len(FAULT_TEXT[kind])]
+            o.setdefault("fill", "red")
+            o.setdefault("stroke", "blue")
         elif kind == "style_garbage":
             o["style"] = FAULT_TEXT[kind][(k + j) % len(FAULT_TEXT[kind])]
         elif kind in ("length_garbage", "length_negative"):
